@@ -34,11 +34,11 @@ PROPS["C13"] = {
     "level": "fault_enumeration",
     "design_ref": "DESIGN.md §3 C13",
     "technique": "model-based runtime monitoring of the real in-memory and RocksDB stores + fault enumeration (reopen points, SIGKILL of a writer process) + valgrind memcheck",
-    "text": "Every answer of every operation over adversarial (agent, item, key) histories is compared with a reference map through the public persistence traits, for the in-memory store (incl. the idle/in-use hand-over) and for RocksDB; ids must be stable and injective per agent and storage sharing between different (agent, item) pairs is detected by probe. For RocksDB this is checked across close/reopen at enumerated positions (every position in the thorough tier) and after SIGKILL of a writer process at seeded instants, requiring all acknowledged operations to be present and the store to remain usable.",
+    "text": "Every answer of every operation over adversarial (agent, item, key) histories is compared with a reference map through the public persistence traits, for the in-memory store (incl. the idle/in-use hand-over) and for RocksDB; ids must be stable and injective per agent and storage sharing between different (agent, item) pairs is detected by probe. For RocksDB this is checked across close/reopen at enumerated positions (every position in the thorough tier) and after SIGKILL of a writer process at seeded instants, requiring all acknowledged operations to be present and the store to remain usable. Identifier uniqueness and stability are also checked with 2-8 threads registering names concurrently over about 1 750 (quick) / 45 000 (thorough) open/close sessions, and items whose identifiers are multiples of 256 apart are exercised with clears (stride histories).",
     "note": "Trusted base: the ~60-line reference model, the expansion of operations into single trait calls, the stdout ack protocol of the writer child. SIGKILL exercises process death, not power loss (the OS page cache survives). RocksDB itself is exercised, not modelled.",
     "runs": [{"engine": "store"}],
     "sanitizers": [{"kind": "valgrind", "engine": "store", "args": ["--scale", "0.005", "--threads", "1", "--only", "rocks-reopen"], "timeout_s": 1800}],
-    "assumptions": ["sequential histories (no concurrent callers on one plane)", "fixed kind per item", "kill instants are sampled; the kill instant itself is not replayable", "TMPDIR honours write ordering for a killed process"],
+    "assumptions": ["data operations of one item are sequential; names are registered concurrently only by different agents (one thread per agent); thread interleavings are sampled, not replayable", "fixed kind per item", "kill instants are sampled; the kill instant itself is not replayable", "TMPDIR honours write ordering for a killed process"],
 }
 
 PROPS["C17"] = {
